@@ -35,6 +35,9 @@ ASSUMPTIONS = [
     "yield_per is applied only where documented as supported (no joined collection / subqueryload in the top-level load); unique() is called where the ORM requires it and the expected list is de-duplicated accordingly",
     "ORDER BY is always total over the selected rows (root PK appended), so LIMIT/OFFSET are deterministic; with DISTINCT only root columns are ordered",
     "not covered: inheritance (C42), with_expression, raiseload, noload, contains_eager, populate_existing, objects already present in the Session",
+    "three confirmed defects are excluded from generation by construction (counted in excluded_by_construction) and pinned as replays in findings/C40: "
+    "subqueryload of a many-to-one with deferred FK column; nested innerjoin joinedload spliced onto a sibling self-referential alias; "
+    "subqueryload from a many-to-one adding DISTINCT under LIMIT/OFFSET over duplicate rows",
 ]
 
 STRATS = ["default", "lazy", "joined", "joined_inner", "subquery", "selectin", "immediate"]
